@@ -161,3 +161,46 @@ with seek_ge_ch (lo : key) (c : children) : option key :=
   | CNil => None
   | CCons _ t r => match seek_ge lo t with Some k => Some k | None => seek_ge_ch lo r end
   end.
+
+(* ---------- baseIter.seek (art_iterator.go): where a bounded iteration starts ----------
+   The real seek builds a stack of (node, index) pairs; what it decides is how many leaves lie to the left of the
+   position.  seek_rank follows the same branches: matchDeep against the node's path segment; on a mismatch inside the
+   segment either everything below the node is to the right (the bound ends there, or its next byte is smaller) or
+   everything is to the left; otherwise skip the segment, step over the in-place leaf and the children with a
+   smaller byte (seekToIdx), descend into the child with the same byte; at a leaf compare the whole keys. *)
+Fixpoint size (t : art) : nat :=
+  match t with
+  | Leaf _ => 1
+  | Node _ _ ipl ch => (match ipl with Some _ => 1 | None => 0 end) + size_ch ch
+  end
+with size_ch (c : children) : nat :=
+  match c with CNil => 0 | CCons _ t r => size t + size_ch r end.
+
+(* the byte of the node's path segment at the mismatch index: from the stored prefix or from the minimum leaf *)
+Definition prefix_byte (d mi : nat) (pfx : list N) (t : art) : N :=
+  if Nat.ltb mi max_in_node then nth mi pfx 0%N else nth mi (skipn d (min_leaf t)) 0%N.
+
+Fixpoint seek_rank (k : key) (d : nat) (t : art) : nat :=
+  match t with
+  | Leaf k' => if valid k d && match lex_cmp k k' with Gt => true | _ => false end then 1 else 0
+  | Node plen pfx ipl ch =>
+      let mi := match_deep k d plen pfx t in
+      if Nat.ltb mi plen then
+        if Nat.eqb (mi + d) (length k) || N.ltb (byte_at k (d + mi)) (prefix_byte d mi pfx t) then 0 else size t
+      else
+        let d' := d + plen in
+        if valid k d' then (match ipl with Some _ => 1 | None => 0 end) + seek_rank_ch k d' (byte_at k d') ch
+        else 0
+  end
+with seek_rank_ch (k : key) (d' : nat) (b : N) (c : children) : nat :=
+  match c with
+  | CNil => 0
+  | CCons b' t r =>
+      if N.ltb b' b then size t + seek_rank_ch k d' b r
+      else if N.eqb b' b then seek_rank k (S d') t
+      else 0
+  end.
+
+(* the leaf a forward iteration from lower bound lo starts at *)
+Definition seek_first (lo : key) (o : option art) : option key :=
+  match o with Some t => nth_error (inorder t) (seek_rank lo 0 t) | None => None end.
